@@ -113,7 +113,14 @@ def _scalar_symbols(op, case0, factor):
         if kind == "order":
             args[name] = case0["s"][name]
         elif kind == "factor":
-            args[name] = factor
+            if abs(factor * 8) % 2 == 1:
+                # a symbolic factor whose sign is known to SymPy (the polar/theta/eta scale needs sign(factor))
+                sy = sympy.Symbol("s_factor", negative=True) if factor < 0 else sympy.Symbol("s_factor", positive=True)
+                args[name] = sy
+                syms.append(sy)
+                getters.append(lambda s, name=name: s[name])
+            else:
+                args[name] = factor
         elif kind.startswith("matrix"):
             keys = sorted(case0["s"][name])
             ms = {k: sympy.Symbol(f"m_{k}", real=True) for k in keys}
